@@ -42,3 +42,44 @@ package clientip
 //@ nonglobal fc00::/7           -- RFC 4193 unique local
 //@ nonglobal fe80::/10          -- RFC 4291 link-scoped unicast
 //@ nonglobal ff00::/8           -- RFC 4291 multicast
+
+//@ -- ---------------------------------------------------------------- C18: the item parser and the resolvers without iterators
+//@ -- For every input string: no panic; an address comes with a nil error and an error comes with no address.
+//@ axiom errs.nonnil: ErrInvalidIpAddress != nil && ErrUnspecifiedIpAddress != nil && errSingleIPHeader != nil && ErrRemoteAddress != nil && errEmptyChain != nil
+//@ fun parsedIP(s string) net.IP
+//@ fun ipUnspecified(ip net.IP) bool
+
+//@ func trimMatchedEnds props C18
+//@   panics-when len(chars) != 1 && len(chars) != 2
+//@   ensures trimmed: len(s) >= 2 && s[0] == chars[0] && s[len(s)-1] == chars[len(chars)-1] ==> result == s[1:len(s)-1]
+//@   ensures kept: !(len(s) >= 2 && s[0] == chars[0] && s[len(s)-1] == chars[len(chars)-1]) ==> result == s
+
+//@ func ParseIPAddr props C18
+//@   modifies alloc
+//@   ensures exclusive: (result1 == nil ==> result0 != nil && fresh(result0) && result0.IP != nil && !ipUnspecified(result0.IP)) && (result1 != nil ==> result0 == nil)
+//@   ensures errors: result1 == nil || result1 == ErrInvalidIpAddress || result1 == ErrUnspecifiedIpAddress
+
+//@ func lastHeader props C18
+
+//@ func (RemoteAddr).ClientIP props C18
+//@   requires c != nil
+//@   modifies alloc
+//@   ensures exclusive: (result1 == nil ==> result0 != nil) && (result1 != nil ==> result0 == nil)
+
+//@ func (SingleIPHeader).ClientIP props C18
+//@   requires c != nil
+//@   modifies alloc
+//@   ensures exclusive: (result1 == nil ==> result0 != nil) && (result1 != nil ==> result0 == nil)
+
+//@ -- the chain returns the first success, or an error and no address (chainIdx: index of the resolver last asked)
+//@ ghost var chainIdx int
+//@ func (Chain).ClientIP props C18
+//@   requires c != nil
+//@   requires forall k int :: {s.resolvers[k]} 0 <= k && k < len(s.resolvers) ==> s.resolvers[k] != nil
+//@   modifies alloc, chainIdx
+//@   ghost-set after ClientIPResolver.ClientIP#1 : chainIdx = rangeindex
+//@   ensures first-success: result1 == nil ==> 0 <= chainIdx && chainIdx < len(s.resolvers) && result0 == resolverIP(s.resolvers[chainIdx], c, hCalls) && resolverErr(s.resolvers[chainIdx], c, hCalls) == nil && forall j int :: {s.resolvers[j]} 0 <= j && j < chainIdx ==> resolverErr(s.resolvers[j], c, hCalls) != nil
+//@   ensures all-failed: result1 != nil ==> result0 == nil && forall j int :: {s.resolvers[j]} 0 <= j && j < len(s.resolvers) ==> resolverErr(s.resolvers[j], c, hCalls) != nil
+//@   loop 1: invariant -1 <= rangeindex && rangeindex < len(s.resolvers)
+//@   loop 1: invariant forall j int :: {s.resolvers[j]} 0 <= j && j <= rangeindex ==> resolverErr(s.resolvers[j], c, hCalls) != nil
+//@   loop 1: decreases len(s.resolvers) - rangeindex
